@@ -23,6 +23,14 @@ KIND_NAME = {'a': 'add', 'r': 'remove', 'p': 'probe'}
 RENAMED = {'a': 'added', 'r': 'removed', 'p': 'probed'}
 
 
+def _same_class(self, other):
+    return type(other) is type(self)
+
+
+def _const_hash(self):
+    return 11
+
+
 # --------------------------------------------------------------------------
 # generation
 # --------------------------------------------------------------------------
@@ -40,7 +48,11 @@ def gen_classes(rng, n, shapes, depth=3):
         classes.append({'base': base, 'shape': rng.choice(shapes),
                         'rename': rng.random() < 0.3,
                         # components may be falsy objects
-                        'falsy': rng.choice([None] * 5 + ['bool', 'len'])})
+                        'falsy': rng.choice([None] * 5 + ['bool', 'len']),
+                        # ... or value-like: all instances of the class equal
+                        # (and equally hashed), or __eq__ without __hash__
+                        'eq': rng.choice([None] * 6 + ['equal', 'unhashable'])
+                        })
     return classes
 
 
@@ -235,6 +247,9 @@ class Driver:
                 ns['__bool__'] = lambda self: False
             elif spec.get('falsy') == 'len':
                 ns['__len__'] = lambda self: 0
+            if spec.get('eq'):
+                ns['__eq__'] = _same_class
+                ns['__hash__'] = _const_hash if spec['eq'] == 'equal' else None
             cls = type(f'K{i}', (base,), ns)
             if own:
                 if spec['rename']:
